@@ -14,6 +14,7 @@ import Mahotas.Proofs.C02Laws
 import Mahotas.Proofs.StarCheck
 import Mahotas.Proofs.C02Families
 import Mahotas.Proofs.C02Signed
+import Mahotas.Proofs.C02Buffer
 open Mahotas Mahotas.C01 Mahotas.C02
 
 /-- **the scalar interface holds for every unsigned dtype** (generic in the range `[0, hi]`,
@@ -643,3 +644,50 @@ example :
     let sup := support [3] #[1, 1, 1] false
     (closeModel (dtI 8) f sup).data.toList = [126, 0, 0] ∧ ¬ LeImg f (closeModel (dtI 8) f sup) := by
   refine ⟨by decide +kernel, fun h => absurd (h 0 (by decide)) (by decide +kernel)⟩
+
+/-! ## Round 4 — `open` / `close` with `out=`: the buffer programs of `morph.py:393-472`
+
+`openBuf dt A sup out` / `closeBuf dt A sup out` (`Model/C02.lean`) run the source line by line on an explicit
+output buffer: `erode(f, Bc, out=out)` stores into every cell of `out` in scan order; `.copy()`;
+`dilate(copy, Bc, out=eroded)` fills the buffer with the dtype minimum and scatters into it. The driver prints
+them (`openbuf=`/`closebuf=`) next to the pure compositions, and the harness calls the real `open`/`close` with a
+dirty caller buffer. -/
+
+/-- **`open(f, Bc, out=buf)` and `close(f, Bc, out=buf)` compute the pure compositions the laws are about**, for
+every dtype, image, element and **every initial content of the buffer** (of the size of the image — what
+`_get_output` enforces); the intermediate kernels alone also ignore the old contents. -/
+theorem C02_open_close_buffer_program (dt : DT) (A : Img Int) (sup : List (List Int × Int)) (buf : Array Int)
+    (hsz : buf.size = A.size) :
+    openBuf dt A sup buf = (openModel dt A sup).data ∧
+    closeBuf dt A sup buf = (closeModel dt A sup).data ∧
+    erodeInto dt A sup buf = (erodeImg dt A sup).data ∧
+    dilateInto dt A sup buf = (dilateImg dt A sup).data :=
+  ⟨openBuf_eq dt A sup buf hsz, closeBuf_eq dt A sup buf hsz, erodeInto_eq dt A sup buf hsz,
+   dilateInto_eq dt A sup buf hsz⟩
+
+/-- **why the source copies** ("otherwise the image will be modified in place, which can mess up the
+implementation"): `dilate(eroded, Bc, out=eroded)` on one and the same memory first fills it with the dtype
+minimum and then finds every pixel absorbing — the aliased "opening" is the constant `lo` image, for every
+image, element and buffer. -/
+theorem C02_open_aliased_is_constant (dt : DT) (A : Img Int) (sup : List (List Int × Int)) (buf : Array Int)
+    (hsz : buf.size = A.size) :
+    openAliased dt A sup buf = Array.replicate A.size dt.lo := by
+  unfold openAliased
+  rw [dilateInPlace_eq, erodeInto_eq dt A sup buf hsz]
+  congr 1
+  exact size_map_allPos _ _
+
+/-! non-vacuity and the aliasing counterexamples, `decide`d on the definitions the driver runs: a uint8 2×3
+    image, the default cross, a dirty buffer. The buffer program gives the opening/closing; dilating or eroding
+    in place (no copy) gives something else. -/
+example :
+    let dt := dtU 8
+    let sup := support [3, 3] #[0, 1, 0, 1, 1, 1, 0, 1, 0] false
+    let f : Img Int := { shape := [2, 3], data := #[5, 9, 5, 7, 7, 250] }
+    let dirty : Array Int := #[255, 0, 13, 255, 1, 77]
+    (openBuf dt f sup dirty).toList = [5, 7, 5, 7, 7, 7] ∧
+    (openModel dt f sup).data.toList = [5, 7, 5, 7, 7, 7] ∧
+    (openAliased dt f sup dirty).toList = [0, 0, 0, 0, 0, 0] ∧
+    (closeBuf dt f sup dirty).toList = (closeModel dt f sup).data.toList ∧
+    (closeAliased dt f sup dirty).toList ≠ (closeModel dt f sup).data.toList := by
+  decide +kernel
